@@ -135,6 +135,20 @@ CHECKS = {
             "DESIGN.md §3 C20",
             "Results compared up to generated names; settings module reset before each operation (an operation states its settings).",
             "exhaustive exploration of operation histories (sequential model checking of process-global state)"),
+    "C14": ("model_checking",
+            "The original unsolvable loop is explored with symbolic initial values; every returned (Q, f) must satisfy E(Q(state_n)) = f(n) "
+            "for n <= N as polynomials in the initial values and free coefficients; every synthesised loop is executed through the IR model "
+            "and must reproduce E_n(v) for each retained source variable and E_n(Q) for the fresh variable.",
+            "DESIGN.md §3 C14",
+            "Depth N = 4; 9 benchmark loops + a generated family; solver CPU limits are refusals.",
+            "explicit-state exploration with symbolic initial values vs synthesised invariants and loops"),
+    "C15": ("model_checking",
+            "Small networks (5 DAG shapes, domain sizes 2/3, CPT rows from a menu) x all notation mixes x sanitised/colliding names: parsed "
+            "CPTs, the generated program's one-iteration joint law (explored through the IR model) and printed query answers are compared "
+            "with the brute-force joint law; malformed variants must raise.",
+            "DESIGN.md §3 C15",
+            "`table` ordering convention as stated in the property's anchors; printed answers compared to 1e-9.",
+            "exhaustive enumeration of small networks; explicit-state exploration of the generated program vs brute-force joint law"),
 }
 
 NOT_YET = {}
